@@ -54,3 +54,15 @@ package mpbgv
 //@   requires len(opOut.Value) == 2
 //@   ensures implies(isnil(err), val(opOut.Value[0]) == old(val(c0Agg.Value)) && val(opOut.Value[1]) == old(val(crp.Value)))
 //@   ensures implies(isnil(err), len(opOut.Value[0].Coeffs) == len(c0Agg.Value.Coeffs) && len(opOut.Value[1].Coeffs) == len(crp.Value.Coeffs))
+
+// ---- arguments are not retained (property C09): no reference to memory of the caller's input is stored
+// ---- into the receiver, the output or another argument (a pointer assignment where a copy was meant)
+//@ noescape MaskedTransformProtocol.Transform ct
+//@   property C09
+
+//@ noescape MaskedTransformProtocol.GenShare ct
+//@   property C09
+
+//@ noescape EncToShareProtocol.GenShare ct
+//@   property C09
+
